@@ -339,8 +339,11 @@ pub fn hook_open(path: &[u8], flags: i32, real: impl FnOnce() -> i64) -> i64 {
                 let excl = flags & libc::O_EXCL != 0;
                 let append = flags & libc::O_APPEND != 0;
                 let trunc = flags & libc::O_TRUNC != 0;
-                if !excl || !append || trunc {
-                    let m = format!("file {} opened for writing with flags {:#o} (needs O_CREAT|O_EXCL|O_APPEND, no O_TRUNC)", rel, flags);
+                // exclusive creation is what the property asks for; O_APPEND is one way of
+                // extending at the end only (writes of a non-append descriptor are checked
+                // against the end of file one by one)
+                if !excl || trunc {
+                    let m = format!("file {} opened for writing with flags {:#o} (needs exclusive creation: O_CREAT|O_EXCL, no O_TRUNC)", rel, flags);
                     fs.discipline.push(m);
                 }
                 let inc_idx = match existed {
